@@ -9,6 +9,8 @@ SEMANTIC = [
     # (regex on the diagnostic message, obligation kind)
     (r'^postcondition not satisfied', 'postcondition'),
     (r'^precondition not satisfied', 'precondition-at-call'),
+    (r'^precondition not met: index in bounds', 'bounds'),
+    (r'^precondition not met', 'precondition-at-call'),
     (r'^assertion failed', 'assertion'),
     (r'^assertion failure', 'assertion'),
     (r'^invariant not satisfied at end of loop body', 'invariant-preserved'),
@@ -38,7 +40,8 @@ def classify(msg):
 
 
 def run(gen_path, rlimit=30, threads=8, extra=(), timeout=900, multiple_errors=20):
-    cmd = ['verus', gen_path, '--error-format=json', '--output-json', '--time',
+    # every crate of /repo is edition 2024: the extracted text is read under the same edition
+    cmd = ['verus', gen_path, '--edition=2024', '--error-format=json', '--output-json', '--time',
            '--multiple-errors', str(multiple_errors), '--rlimit', str(rlimit),
            '--num-threads', str(threads)] + list(extra)
     t0 = time.time()
